@@ -168,7 +168,9 @@ CHECKS = {
     "C16": dict(
         text="Proof: (c16_never_accepted) every derive input that the property lists as rejectable (DeriveSpec.rejectable: empty/unknown/malformed attribute, invalid rename_all, a single-valued "
              "attribute twice within one attribute or across several, from with try_from, tag on a struct, try_from with rename_all/tag/deny_unknown_fields - at container, variant and field level - "
-             "and the unsupported shapes) is never accepted by the front-end model; container causes yield Reject itself. The model has no panic outcome. Correspondence: generated crate of poisoned "
+             "and the unsupported shapes) is never accepted by the front-end model; container causes yield Reject itself. The model has no panic outcome. (c16_container_no_override, "
+             "c16_variant_no_override, c16_field_no_override) whenever attributes are accepted, every attribute item that was written - in whichever #[deserr(..)] group - is present in the merged "
+             "attributes with exactly the value that was written: nothing is silently dropped or overridden; (c16_accepted_reads_attrs) an accepted item has readable, valid container attributes. Correspondence: generated crate of poisoned "
              "and control items compiled by the real macro with cargo check --message-format=json, accept/reject/panic attributed per item.",
         ref="5 C16", technique="Coq: merge invariants over attribute lists (counting invariant, brute-force merge inversion); differential check against rustc diagnostics",
         note="Trusted: as C07 + cargo/rustc diagnostics attribution by line. Field/variant causes are required only when no container-level from/try_from replaces the body (the macro does not look at "
